@@ -145,10 +145,16 @@ def iterBwd (c : Cfg Nat) (t : T) : String :=
   let (h, seq) := hashPositions c t ps
   s!"riter n={ps.length} h={h.toNat}" ++ (if ps.length ≤ 64 then seq else "")
 
-def withTab (st : St) (id : Nat) (f : Entry → St × String) : St × String :=
-  match st.tabs[id]? with
-  | some (some e) => if e.movedFrom then (st, "bad-table") else f e
-  | _ => (st, "bad-table")
+/-- runs `f` on table `id`.  The entry is taken OUT of the state first (and `f` gets the state without it), so that the
+table's arrays are uniquely referenced while the model updates them: in-place updates instead of a copy of the whole
+store per request.  `f` must put the entry back (`putTab`). -/
+def withTab (st : St) (id : Nat) (f : St → Entry → St × String) : St × String :=
+  let ⟨cfg, bump, pol, tabs, wires⟩ := st
+  match tabs[id]? with
+  | some (some e) =>
+    if e.movedFrom then (⟨cfg, bump, pol, tabs, wires⟩, "bad-table")
+    else f ⟨cfg, bump, pol, tabs.setIfInBounds id none, wires⟩ e
+  | _ => (⟨cfg, bump, pol, tabs, wires⟩, "bad-table")
 
 /-- a live (not moved-from) source object -/
 def srcTab (st : St) (id : Nat) : Option Entry :=
@@ -204,8 +210,17 @@ def modelLine (st : St) (ws : List String) : St × String :=
     | _, _, _ => (st, "bad-op")
   | ["allocid", id] =>
     match id.toNat? with
-    | some id => withTab st id fun e => (st, s!"ok a={e.alloc} own={e.alloc} mism=0")
+    | some id => withTab st id fun st e => (putTab st id e, s!"ok a={e.alloc} own={e.alloc} mism=0")
     | none => (st, "bad-op")
+  | ["ltmoveassign", a, b] =>
+    -- `lt_a = std::move(lt_b)` on two active locked tables: a's section ends (table a is unlocked), b stays locked
+    match a.toNat?, b.toNat? with
+    | some a, some b =>
+      match srcTab st a, srcTab st b with
+      | some ea, some eb =>
+        if a != b && ea.locked && eb.locked then (putTab st a { ea with locked := false }, "ok") else (st, "bad-table")
+      | _, _ => (st, "bad-table")
+    | _, _ => (st, "bad-op")
   | ["copy", d, s_] =>
     match d.toNat?, s_.toNat? with
     | some d, some s_ =>
@@ -243,137 +258,143 @@ def modelLine (st : St) (ws : List String) : St × String :=
   | [op, id, a] =>
     match id.toNat?, a.toNat? with
     | some id, some a =>
-      withTab st id fun e =>
-        let t := e.t
+      withTab st id fun st e =>
+        let ⟨t, locked, alloc, mf⟩ := e
+        let mk := fun (t : T) => (⟨t, locked, alloc, mf⟩ : Entry)
         match op with
         | "find" =>
           let (t, o) := t.fnOp c false a (fun v => .ret v false)
-          (putTab st id { e with t := t }, showOut o)
+          (putTab st id (mk t), showOut o)
         | "findv" =>
           let (t, r) := t.findVal c a
-          (putTab st id { e with t := t }, showRes toString r)
+          (putTab st id (mk t), showRes toString r)
         | "erase" =>
           let (t, o) := t.fnOp c true a (fun v => .ret v true)
-          (putTab st id { e with t := t }, showOut { o with calls := [] })
+          (putTab st id (mk t), showOut { o with calls := [] })
         | "rehash" =>
-          let (t, r) := t.rehash c e.locked a
-          (putTab st id { e with t := t }, showRes showB r)
+          let (t, r) := t.rehash c locked a
+          (putTab st id (mk t), showRes showB r)
         | "reserve" =>
-          let (t, r) := t.reserve c e.locked a
-          (putTab st id { e with t := t }, showRes showB r)
+          let (t, r) := t.reserve c locked a
+          (putTab st id (mk t), showRes showB r)
         | "setmlf" =>
           let (t, r) := t.setMlf (Float.ofBits (UInt64.ofNat a))
-          (putTab st id { e with t := t }, showRes (fun _ => "") r)
+          (putTab st id (mk t), showRes (fun _ => "") r)
         | "setmhp" =>
           let (t, r) := t.setMhp a
-          (putTab st id { e with t := t }, showRes (fun _ => "") r)
-        | "setworkers" => (putTab st id { e with t := { t with workers := a } }, "ok")
-        | "ltfind" => let p := t.ltFind c a; (st, s!"{showPos p} {posVal c t p}")
-        | "ltcount" => (st, toString (t.ltCount c a))
+          (putTab st id (mk t), showRes (fun _ => "") r)
+        | "setworkers" => (putTab st id (mk { t with workers := a }), "ok")
+        | "ltfind" => let p := t.ltFind c a; (putTab st id (mk t), s!"{showPos p} {posVal c t p}")
+        | "ltcount" => (putTab st id (mk t), toString (t.ltCount c a))
         | "ltat" =>
           match t.ltAt c a with
-          | .ok v => (st, s!"ok {a}={v}")
-          | .err er => (st, "err " ++ errName er)
+          | .ok v => (putTab st id (mk t), s!"ok {a}={v}")
+          | .err er => (putTab st id (mk t), "err " ++ errName er)
         | "ltequalrange" =>
           let r := t.ltEqualRange c a
-          (st, s!"{showPos r.1} {showPos r.2}")
+          (putTab st id (mk t), s!"{showPos r.1} {showPos r.2}")
         | "lterase" =>
           let (t, n) := t.ltErase c a
-          (putTab st id { e with t := t }, toString n)
+          (putTab st id (mk t), toString n)
         | "lteraseit" =>
           let p := t.ltFind c a
-          if p == t.cur.endPos then (st, "absent")
+          if p == t.cur.endPos then (putTab st id (mk t), "absent")
           else
             let (t, nx) := t.ltEraseAt c p
-            (putTab st id { e with t := t }, s!"{showPos nx} {posVal c t nx}")
+            (putTab st id (mk t), s!"{showPos nx} {posVal c t nx}")
         | "ltindex" =>
           match t.ltIndex c a 0 with
-          | (t, .ok (p, _)) => (putTab st id { e with t := t }, s!"ok {posVal c t p}")
-          | (t, .err er) => (putTab st id { e with t := t }, "err " ++ errName er)
+          | (t, .ok (p, _)) => (putTab st id (mk t), s!"ok {posVal c t p}")
+          | (t, .err er) => (putTab st id (mk t), "err " ++ errName er)
         | "read" =>
           match st.wires[a]? with
           | some (some w) =>
             let (t, r) := t.read c st.bumpOnRead w
-            (putTab st id { e with t := t }, showRes (fun _ => "") r)
-          | _ => (st, "bad-wire")
-        | _ => (st, "bad-op")
+            (putTab st id (mk t), showRes (fun _ => "") r)
+          | _ => (putTab st id (mk t), "bad-wire")
+        | _ => (putTab st id (mk t), "bad-op")
     | _, _ => (st, "bad-op")
   | [op, id] =>
     match id.toNat? with
     | some id =>
-      withTab st id fun e =>
-        let t := e.t
+      withTab st id fun st e =>
+        let ⟨t, locked, alloc, mf⟩ := e
+        let mk := fun (t : T) => (⟨t, locked, alloc, mf⟩ : Entry)
         match op with
-        | "digest" => (st, digest t)
+        | "digest" => (putTab st id (mk t), digest t)
         | "inv" =>
           let bad := t.checkInv c
-          (st, if bad.isEmpty then "inv ok" else s!"inv BAD {bad}")
-        | "dump" => (st, dump c t)
-        | "clear" => (putTab st id { e with t := t.clear c }, "ok")
+          (putTab st id (mk t), if bad.isEmpty then "inv ok" else s!"inv BAD {bad}")
+        | "dump" => (putTab st id (mk t), dump c t)
+        | "clear" => (putTab st id (mk (t.clear c)), "ok")
         | "stats" =>
           let sz := t.size
-          (st, s!"size={sz} empty={showB (sz == 0)} hp={t.hp} buckets={2 ^ t.hp} cap={t.capacity c} lf={(lfOf sz (t.capacity c)).toBits.toNat} mlf={t.mlf.toBits.toNat} mhp={t.mhp}")
-        | "lock" => (putTab st id { e with t := t.lockTable c, locked := true }, "ok")
-        | "unlock" => (putTab st id { e with locked := false }, "ok")
-        | "iter" => (st, iterFwd c t)
-        | "riter" => (st, iterBwd c t)
-        | "write" => ({ st with wires := st.wires.setIfInBounds id (some t.write) }, "ok")
-        | _ => (st, "bad-op")
+          (putTab st id (mk t), s!"size={sz} empty={showB (sz == 0)} hp={t.hp} buckets={2 ^ t.hp} cap={t.capacity c} lf={(lfOf sz (t.capacity c)).toBits.toNat} mlf={t.mlf.toBits.toNat} mhp={t.mhp}")
+        | "probe" => (putTab st id (mk t), if locked then "ok held" else "ok free")
+        | "lock" => (putTab st id ⟨t.lockTable c, true, alloc, mf⟩, "ok")
+        | "unlock" => (putTab st id ⟨t, false, alloc, mf⟩, "ok")
+        | "iter" => (putTab st id (mk t), iterFwd c t)
+        | "riter" => (putTab st id (mk t), iterBwd c t)
+        | "write" => (putTab { st with wires := st.wires.setIfInBounds id (some t.write) } id (mk t), "ok")
+        | _ => (putTab st id (mk t), "bad-op")
     | none => (st, "bad-op")
   | [op, id, a, b] =>
     match id.toNat?, a.toNat? with
     | some id, some a =>
-      withTab st id fun e =>
-        let t := e.t
+      withTab st id fun st e =>
+        let ⟨t, locked, alloc, mf⟩ := e
+        let mk := fun (t : T) => (⟨t, locked, alloc, mf⟩ : Entry)
         match op with
         | "insert" =>
           match b.toNat? with
           | some v =>
             let (t, o, _) := t.uprase c false a v false false (fun _ v => .ret v false)
-            (putTab st id { e with t := t }, showOut { o with calls := [] })
-          | none => (st, "bad-op")
+            (putTab st id (mk t), showOut { o with calls := [] })
+          | none => (putTab st id (mk t), "bad-op")
         | "ioa" =>
           match b.toNat? with
           | some v =>
             let (t, o, _) := t.uprase c false a v false false (fun _ _ => .ret v false)
-            (putTab st id { e with t := t }, showOut { o with calls := [] })
-          | none => (st, "bad-op")
+            (putTab st id (mk t), showOut { o with calls := [] })
+          | none => (putTab st id (mk t), "bad-op")
         | "update" =>
           match b.toNat? with
           | some v =>
             let (t, o) := t.fnOp c false a (fun _ => .ret v false)
-            (putTab st id { e with t := t }, showOut { o with calls := [] })
-          | none => (st, "bad-op")
+            (putTab st id (mk t), showOut { o with calls := [] })
+          | none => (putTab st id (mk t), "bad-op")
         | "updatefn" =>
           match parseFn b with
-          | some f => let (t, o) := t.fnOp c false a f; (putTab st id { e with t := t }, showOut o)
-          | none => (st, "bad-op")
+          | some f => let (t, o) := t.fnOp c false a f; (putTab st id (mk t), showOut o)
+          | none => (putTab st id (mk t), "bad-op")
         | "erasefn" =>
           match parseFn b with
-          | some f => let (t, o) := t.fnOp c true a f; (putTab st id { e with t := t }, showOut o)
-          | none => (st, "bad-op")
+          | some f => let (t, o) := t.fnOp c true a f; (putTab st id (mk t), showOut o)
+          | none => (putTab st id (mk t), "bad-op")
         | "ltinsert" =>
           match b.toNat? with
           | some v =>
             match t.ltInsert c a v with
-            | (t, .ok (p, ins)) => (putTab st id { e with t := t }, s!"ok {showB ins} {showPos p} {posVal c t p}")
-            | (t, .err er) => (putTab st id { e with t := t }, "err " ++ errName er)
-          | none => (st, "bad-op")
-        | _ => (st, "bad-op")
+            | (t, .ok (p, ins)) => (putTab st id (mk t), s!"ok {showB ins} {showPos p} {posVal c t p}")
+            | (t, .err er) => (putTab st id (mk t), "err " ++ errName er)
+          | none => (putTab st id (mk t), "bad-op")
+        | _ => (putTab st id (mk t), "bad-op")
     | _, _ => (st, "bad-op")
   | [op, id, k, v, ctxAware, fnNew, fnOld] =>
     match id.toNat?, k.toNat?, v.toNat?, parseFn fnNew, parseFn fnOld with
     | some id, some k, some v, some fN, some fO =>
-      withTab st id fun e =>
+      withTab st id fun st e =>
+        let ⟨t, locked, alloc, mf⟩ := e
+        let mk := fun (t : T) => (⟨t, locked, alloc, mf⟩ : Entry)
         let fn : Ctx → Nat → FnOut Nat := fun cx x => match cx with | .newlyInserted => fN x | .alreadyExisted => fO x
         match op with
         | "upsert" =>
-          let (t, o, _) := e.t.uprase c false k v (ctxAware == "1") false fn
-          (putTab st id { e with t := t }, showOut o)
+          let (t, o, _) := t.uprase c false k v (ctxAware == "1") false fn
+          (putTab st id (mk t), showOut o)
         | "uprase" =>
-          let (t, o, _) := e.t.uprase c false k v (ctxAware == "1") true fn
-          (putTab st id { e with t := t }, showOut o)
-        | _ => (st, "bad-op")
+          let (t, o, _) := t.uprase c false k v (ctxAware == "1") true fn
+          (putTab st id (mk t), showOut o)
+        | _ => (putTab st id (mk t), "bad-op")
     | _, _, _, _, _ => (st, "bad-op")
   | _ => (st, "bad-op")
 
